@@ -208,11 +208,12 @@ def mergePairs : List (List Nat) → List (List Nat)
   | [l] => [l]
   | a :: b :: rest => mergeF (a.length + b.length) a b :: mergePairs rest
 
-/-- passes until one run is left (`fuel` ≥ log₂ of the number of runs) -/
+/-- passes until one run is left (`fuel` ≥ log₂ of the number of runs; out of fuel the runs are just concatenated, so
+the result is always a permutation of the input — `FitProps/C17NodupLemmas.lean`) -/
 def mergeAll : Nat → List (List Nat) → List Nat
   | _, [] => []
   | _, [l] => l
-  | 0, l :: _ => l
+  | 0, ls => ls.flatten
   | f + 1, ls => mergeAll f (mergePairs ls)
 
 /-- merge sort, bottom-up (no pairs, no `let`: cheap for the kernel); the fuel argument is an upper bound of the length -/
